@@ -2,6 +2,7 @@ package props
 
 import (
 	"godsverif/core"
+	"sort"
 
 	"github.com/emirpasic/gods/v2/sets"
 	"github.com/emirpasic/gods/v2/sets/hashset"
@@ -38,10 +39,44 @@ func newLinkedSetMon[T comparable](c *core.Ctx, d *Dom[T], init ...T) *SetMon[T]
 	return m
 }
 func newTreeSetMon[T comparable](c *core.Ctx, d *Dom[T], cmp NamedCmp[T], init ...T) *SetMon[T] {
-	c.Begin("TreeSet", "NewWith", cmp.Name, init)
-	m := &SetMon[T]{c: c, Name: "TreeSet", S: treeset.NewWith[T](cmp.F, init...), D: d, Cmp: cmp.F, Kind: "tree"}
+	m := &SetMon[T]{c: c, Name: "TreeSet", D: d, Cmp: cmp.F, Kind: "tree"}
+	if cmp.Name == "natural" && d.Builtin != nil && (c.Index/3)%2 == 0 {
+		// the constructor without a comparator argument (ordered element types)
+		c.Begin("TreeSet", "New", init)
+		m.S = d.Builtin("TreeSet.New", 0).(func(...T) *treeset.Set[T])(init...)
+		c.Count("ctor:builtin-comparator", 1)
+	} else {
+		c.Begin("TreeSet", "NewWith", cmp.Name, init)
+		m.S = treeset.NewWith[T](cmp.F, init...)
+	}
 	m.modelAdd(init)
 	return m
+}
+
+// shapeBatch gives a variadic argument list one of the shapes callers really
+// pass: as drawn, sorted ascending (with its repeats next to each other),
+// sorted descending, or one value repeated. Bulk-load shortcuts key on these.
+func shapeBatch[T comparable](r *core.R, vs []T, cmp func(a, b T) int) {
+	if len(vs) < 3 {
+		return
+	}
+	switch r.Intn(9) {
+	case 0, 1:
+		sort.SliceStable(vs, func(i, j int) bool { return cmp(vs[i], vs[j]) < 0 })
+	case 2:
+		sort.SliceStable(vs, func(i, j int) bool { return cmp(vs[i], vs[j]) > 0 })
+	case 3:
+		for i := range vs {
+			vs[i] = vs[0]
+		}
+	}
+}
+
+func (m *SetMon[T]) order() func(a, b T) int {
+	if m.Cmp != nil {
+		return m.Cmp
+	}
+	return m.D.Cmps[0].F
 }
 
 func (m *SetMon[T]) same(a, b T) bool {
@@ -181,7 +216,7 @@ func (m *SetMon[T]) checkValues(vs []T) {
 		used[i] = true
 		ok := false
 		for _, s := range m.Seen[i] {
-			if s == v {
+			if identical(s, v) {
 				ok = true
 			}
 		}
@@ -207,6 +242,7 @@ func (m *SetMon[T]) args(mixed bool) []T {
 			vs[i] = m.D.Val(r)
 		}
 	}
+	shapeBatch(r, vs, m.order())
 	return vs
 }
 
@@ -240,11 +276,28 @@ func newSetMon[T comparable](c *core.Ctx, d *Dom[T], kind int, init ...T) *SetMo
 
 func runSetHistory[T comparable](c *core.Ctx, d *Dom[T], kind int) {
 	var init []T
-	if c.R.Chance(1, 3) {
+	switch c.R.Intn(6) {
+	case 0, 1:
 		init = d.Vals(c.R, c.R.Range(1, 6))
+	case 2:
+		// a bulk load through the constructor: batch sizes around the usual
+		// thresholds, repeats included, in one of the shapes of shapeBatch
+		init = d.Vals(c.R, []int{15, 16, 17, 31, 32, 33, 64, 100, 257}[c.R.Intn(9)])
+		shapeBatch(c.R, init, d.Cmps[0].F)
+		c.Count("obs:bulk-constructor-load", 1)
 	}
 	m := newSetMon(c, d, kind, init...)
 	m.Check()
+	if c.R.Intn(6) == 0 && len(d.Alpha) < 1000 {
+		// the same through Add into an empty set, ordered by the set's own order
+		m.Clear()
+		vs := d.Vals(c.R, []int{15, 16, 17, 31, 32, 33, 64, 100, 257}[c.R.Intn(9)])
+		if c.R.Intn(4) > 0 {
+			sort.SliceStable(vs, func(i, j int) bool { return m.order()(vs[i], vs[j]) < 0 })
+		}
+		m.Add(vs...)
+		c.Count("obs:bulk-add-into-empty", 1)
+	}
 	steps := c.R.Range(10, 150)
 	if len(d.Alpha) >= 1000 {
 		steps = 1500
@@ -352,6 +405,11 @@ func runC04(c *core.Ctx) {
 		runSetHistory(c, IntDom(c.R.Range(1000, 3000)), i) // sizes that small tests never reach
 	case i%13 == 5:
 		runSetHistory(c, StructDom(c.R.Range(4, 14)), i)
+	case i%13 == 6 && i%3 == 2:
+		// float members on the TreeSet (NaN, the infinities and both zeros are
+		// members like any other under cmp.Compare; == is not reflexive on NaN)
+		c.Count("elemtype:float-treeset", 1)
+		runSetHistory(c, FKeyDom(c.R.Range(4, 14)), i)
 	default:
 		runSetHistory(c, IntDom(c.R.Range(2, 10)), i)
 	}
@@ -376,11 +434,15 @@ func init() {
 				f.atLeast("call:"+s+".Clear", 50)
 			}
 			f.atLeast("obs:Values", 100000)
+			f.atLeast("ctor:builtin-comparator", 500)
+			f.atLeast("obs:bulk-constructor-load", 1000)
+			f.atLeast("obs:bulk-add-into-empty", 1000)
+			f.atLeast("elemtype:float-treeset", 200)
 			return f.missing
 		},
 		Files: setFiles,
 		Assumptions: []string{
-			"element types int and string; TreeSet comparators are strict weak orders; which representative of a comparator class Values() reports is not constrained",
+			"element types int, string, struct and (TreeSet) float64 incl. NaN; TreeSet built by New (built-in order) or NewWith; TreeSet comparators are strict weak orders; which representative of a comparator class Values() reports is not constrained",
 			"a clean run says the property held on the executed histories only",
 		},
 	})
